@@ -170,6 +170,45 @@ def seq_job(j):
     return dict(viols=v, nverified=len(V), rc=r3.rc)
 
 
+UNSYNCED = {
+    "deleted-partial-sync": [("rm", "d1", "f1"), ("cmd", "sync", "-B", "1")],
+    "deleted-not-synced": [("rm", "d1", "f1")],
+    "added-partial-sync": [("write", "d1", "new", 2048, 0), ("cmd", "sync", "-B", "1")],
+    "replaced-partial-sync": [("write", "d1", "f1", 2048, 5), ("cmd", "sync", "-B", "1")],
+    "moved-across-disks-partial": [("mv", "d1", "f1", "d2", "f1"), ("cmd", "sync", "-B", "1")],
+    "killed-sync": [("rm", "d1", "f1"), ("write", "d2", "n2", 1024, 0), ("cmd", "sync", "--test-kill-after-sync")],
+}
+
+
+def unsynced_job(j):
+    """differences caused by files changed / removed / added since the last (complete) sync are never marked bad"""
+    cfg, saved, name, plan, older, seed = j
+    L = X.materialize(cfg, saved, seed)
+    for op in UNSYNCED[name]:
+        X.apply_op(L, op)
+    L.time += 11 * DAY
+    c = L.content()
+    before = {p: labmod._slurp(p) for l in range(cfg.levels) for p in L.parity_paths(l)}
+    res = L.run("scrub", *plan_args(plan, older), env={"VP_TRACE_READS": "1"})
+    V = verified_stripes(L, res, c)
+    c2 = L.content()
+    v = []
+    where = "unsynced state %s, plan %s" % (name, plan)
+    newbad = [i for i, x in enumerate(c2.info) if x is not None and x[1] and not (c.info[i] is not None and c.info[i][1])]
+    if newbad:
+        v.append(dict(kind="unsynced-difference-marked-bad", where=where, stripes=newbad))
+    st = res.tags.summary()
+    if st.get("error_data", "0") != "0" or st.get("error_io", "0") != "0":
+        v.append(dict(kind="unsynced-difference-counted-as-data-error", where=where, summary=st))
+    after = {p: labmod._slurp(p) for l in range(cfg.levels) for p in L.parity_paths(l)}
+    if before != after:
+        v.append(dict(kind="scrub-touched-parity", where=where))
+    for pv in perm.violations(L, "scrub", res, c):
+        pv["where"] = where
+        v.append(pv)
+    return dict(viols=v, nverified=len(V), rc=res.rc)
+
+
 def iter_job(j):
     cfg, saved, seed = j
     L = X.materialize(cfg, saved, seed)
@@ -230,6 +269,9 @@ def run(ctx):
                 jobs.append(("books", (cfg, saved, assign, plan, older, (kind, pos), ctx.seed)))
             if kind != "changed-file":
                 jobs.append(("seq", (cfg, saved, kind, pos, ctx.seed)))
+    for name in UNSYNCED:
+        for plan, older in [("full", None), ("50", "0"), ("new", None)]:
+            jobs.append(("unsynced", (cfg, saved, name, plan, older, ctx.seed)))
     jobs.append(("iter", (cfg, saved, ctx.seed)))
     evals = 0
     done = 0
@@ -256,7 +298,7 @@ def run(ctx):
 
 
 def dispatch(j):
-    return {"books": job, "seq": seq_job, "iter": iter_job}[j[0]](j[1])
+    return {"books": job, "seq": seq_job, "iter": iter_job, "unsynced": unsynced_job}[j[0]](j[1])
 
 
 def replay(r):
@@ -271,6 +313,8 @@ def replay(r):
         out = job((cfg, saved, assign, a[1], a[2], tuple(a[3]) if a[3] else None, 0))
     elif r["kind"] == "seq":
         out = seq_job((cfg, saved, a[0], a[1], 0))
+    elif r["kind"] == "unsynced":
+        out = unsynced_job((cfg, saved, a[0], a[1], a[2], 0))
     else:
         out = iter_job((cfg, saved, 0))
     for v in out["viols"]:
